@@ -25,7 +25,8 @@ RULE = ("Case = one operation applied to a content-bearing file (fixture with ev
         "it; (force) force_created_at / force_updated_at with a whole second from {0, 1, 2^31-1, 2^31, month ends, leap "
         "days, random in [0, 4102444800]} or without argument; (other) any other public mutation - random generator "
         "operations and the catalogue of mutators - judged by I1-I3 only.  Automatic updating is chosen at open time and "
-        "toggled mid-history; clock steps 0, 1, 1000, 10^7; shards run under six different process time zones.  Distinct by (operation class, entity kind, attribute or "
+        "toggled mid-history; clock steps 0, 1, 1000, 10^7; bursts of 2-4 listed changes / forced update times on one entity within one clock second "
+        "through one long-lived handle; shards run under six different process time zones.  Distinct by (operation class, entity kind, attribute or "
         "operation name, switch on|off, clock step class); trivial = none.")
 ASSUMPTIONS = ["the library reads the time only through nixio.util.now_int / nixio.util.util.now_int (both rebound; a timestamp written "
                "from another clock source would show up as a value that is not the logical clock's)",
